@@ -60,6 +60,40 @@ Section PRF.
     let n := 2 * macLen + 2 * keyLen + 2 * ivLen in
     do km <- prf12 fuel n ms gen_keyExpansionLabel_bytes (sr ++ cr);
     Ok (key_slices km macLen keyLen ivLen).
+
+  (* func ekmFromMasterSecret(version, suite, masterSecret, clientRandom, serverRandom)(label, context, length)
+     for the versions whose PRF is prf12 (the closure behind ConnectionState.ExportKeyingMaterial).
+     The Go context is a slice: nil (None here) or a possibly EMPTY byte string (Some c):
+       reserved labels are refused;
+       seed := clientRandom ++ serverRandom
+       if context != nil { if len(context) >= 1<<16 { error }; seed ++= [len>>8, len] ++ context }
+       prf(keyMaterial[:length], masterSecret, label, seed)
+     Err 1: reserved label, Err 2: context too long *)
+  Fixpoint bytes_eqb (a b : list byte) : bool :=
+    match a, b with
+    | [], [] => true
+    | x :: a', y :: b' => N.eqb x y && bytes_eqb a' b'
+    | _, _ => false
+    end.
+
+  Definition reserved_label (label : list byte) : bool :=
+    existsb (bytes_eqb label)
+            [gen_clientFinishedLabel_bytes; gen_serverFinishedLabel_bytes; gen_masterSecretLabel_bytes; gen_keyExpansionLabel_bytes].
+
+  Definition ekm_seed (cr sr : list byte) (context : option (list byte)) : list byte :=
+    cr ++ sr ++ match context with
+                | None => []
+                | Some c => [(N.of_nat (length c) / 256) mod 256; N.of_nat (length c) mod 256]%N ++ c
+                end.
+
+  Definition context_too_long (context : option (list byte)) : bool :=
+    match context with None => false | Some c => (65536 <=? N.of_nat (length c))%N end.
+
+  Definition ekmFromMasterSecret_bytes (fuel : nat) (ms cr sr label : list byte) (context : option (list byte)) (n : nat)
+    : outcome (list byte) :=
+    if reserved_label label then Err 1
+    else if context_too_long context then Err 2
+    else prf12 fuel n ms label (ekm_seed cr sr context).
 End PRF.
 
 (* establishKeys: which slices protect which direction.  A half connection is (cipher key, MAC key, IV). *)
@@ -93,4 +127,15 @@ Section PHashSpec.
     firstn n (p_hash_stream secret seed 1 n).
   (* PRF(secret, label, seed) = P_hash(secret, label + seed) *)
   Definition PRF_spec (n : nat) (secret label seed : list byte) : list byte := P_hash n secret (label ++ seed).
+
+  (* RFC 5705 section 4 (GM/T 0024 with P_SM3): without a context
+       PRF(master_secret, label, client_random + server_random)[length]
+     with a context (of any length below 2^16, zero included)
+       PRF(master_secret, label, client_random + server_random + context_value_length + context_value)[length]
+     where context_value_length is two bytes, big endian *)
+  Definition EKM_spec (n : nat) (ms cr sr label : list byte) (context : option (list byte)) : list byte :=
+    match context with
+    | None => PRF_spec n ms label (cr ++ sr)
+    | Some c => PRF_spec n ms label (cr ++ sr ++ [N.of_nat (length c) / 256; N.of_nat (length c) mod 256]%N ++ c)
+    end.
 End PHashSpec.
